@@ -77,11 +77,38 @@ func isTargetDB(info *types.Info, e ast.Expr) bool {
 // selectArg returns the integer expression whose decimal text is the single
 // argument of an enqueued SELECT.
 func selectArg(info *types.Info, scope ast.Node, args ast.Expr) ast.Expr {
+	if id, isID := ast.Unparen(args).(*ast.Ident); isID {
+		// the argument list built in a local first (`var args []interface{} = []interface{}{..}`), never touched afterwards
+		if o, ok := SoleOrigin(info, scope, id); ok && o.Expr != nil && o.Op == 0 && !o.Range && o.Res < 0 && !o.Param && !elementWritten(info, scope, core.ObjOf(info, id)) {
+			args = o.Expr
+		}
+	}
 	lit, ok := ast.Unparen(args).(*ast.CompositeLit)
 	if !ok || len(lit.Elts) != 1 {
 		return nil
 	}
 	return DecimalOf(info, scope, lit.Elts[0])
+}
+
+// elementWritten: some `v[i] = ..`, `append(v, ..)` assigned back, or &v under scope.
+func elementWritten(info *types.Info, scope ast.Node, v types.Object) bool {
+	found := false
+	core.InspectAll(scope, func(n ast.Node) bool {
+		switch x := n.(type) {
+		case *ast.AssignStmt:
+			for _, l := range x.Lhs {
+				if ix, ok := ast.Unparen(l).(*ast.IndexExpr); ok && IsObj(info, v)(ix.X) {
+					found = true
+				}
+			}
+		case *ast.UnaryExpr:
+			if x.Op == token.AND && IsObj(info, v)(x.X) {
+				found = true
+			}
+		}
+		return true
+	})
+	return found
 }
 
 func r6(c *core.Ctx, p *Parser) {
@@ -179,8 +206,27 @@ func checkArgs(c *core.Ctx, p *Parser, e *Enq, key string, pa *ast.CallExpr) {
 	}
 	o, ok := SoleOrigin(info, body, src)
 	if !ok {
+		// several definitions: the one that reaches the copy decides (the others -- `newArgv = nil` on the
+		// drop arms, the zero value of the declaration -- must not reach it)
+		o, ok = reachingDef(p, src)
+	}
+	if !ok {
 		und("cannot trace the copied slice `%s`", c.Src(src))
 		return
+	}
+	for step := 0; step < 4 && o.Expr != nil && o.Op == 0 && !o.Range && o.Res < 0; step++ {
+		if _, isID := ast.Unparen(o.Expr).(*ast.Ident); !isID {
+			break
+		}
+		// through temporaries that hold the call's result
+		o2, ok2 := SoleOrigin(info, body, o.Expr)
+		if !ok2 {
+			o2, ok2 = reachingDef(p, o.Expr)
+		}
+		if !ok2 {
+			break
+		}
+		o = o2
 	}
 	if call, ok := CallOrigin(info, o, "redis-shake/filter", "", "HandleFilterKeyWithCommand", 0); ok && len(call.Args) == 2 {
 		// its inputs are the command and arguments of the same ParseArgs call
@@ -203,6 +249,71 @@ func checkArgs(c *core.Ctx, p *Parser, e *Enq, key string, pa *ast.CallExpr) {
 		return
 	}
 	und("the copied slice `%s` does not come from HandleFilterKeyWithCommand", c.Src(src))
+}
+
+// reachingDef: src is a local with several definitions of which exactly one
+// can reach the place where src is read (path query with the engine's
+// constant tracking); returns that definition.
+func reachingDef(p *Parser, src ast.Expr) (Origin, bool) {
+	id, ok := ast.Unparen(src).(*ast.Ident)
+	if !ok {
+		return Origin{}, false
+	}
+	v, ok := core.ObjOf(p.Info, id).(*types.Var)
+	if !ok || v.IsField() {
+		return Origin{}, false
+	}
+	use, ok := p.G.Find(src)
+	if !ok {
+		return Origin{}, false
+	}
+	un := use.Node()
+	isDef := func(n ast.Node) bool {
+		switch x := n.(type) {
+		case *ast.AssignStmt:
+			for _, l := range x.Lhs {
+				if IsObj(p.Info, v)(l) {
+					return true
+				}
+			}
+		case *ast.ValueSpec:
+			for _, nm := range x.Names {
+				if p.Info.Defs[nm] == types.Object(v) {
+					return true
+				}
+			}
+		case *ast.DeclStmt:
+			if gd, ok := x.Decl.(*ast.GenDecl); ok {
+				for _, sp := range gd.Specs {
+					if vs, ok := sp.(*ast.ValueSpec); ok {
+						for _, nm := range vs.Names {
+							if p.Info.Defs[nm] == types.Object(v) {
+								return true
+							}
+						}
+					}
+				}
+			}
+		}
+		return false
+	}
+	var hit []Origin
+	for _, o := range Origins1(p.Info, p.Fn.Decl, id) {
+		if o.Stmt == nil {
+			return Origin{}, false
+		}
+		dp, ok := p.G.Find(o.Stmt)
+		if !ok {
+			return Origin{}, false
+		}
+		if w := p.G.Path(cfgq.Query{From: dp, After: true, Avoid: isDef, Target: func(n ast.Node) bool { return n == un }}); w != nil {
+			hit = append(hit, o)
+		}
+	}
+	if len(hit) == 1 && !hit[0].Zero {
+		return hit[0], true
+	}
+	return Origin{}, false
 }
 
 // atoiOfFirst: o is the first result of strconv.Atoi(<string of X[0]>) with isArgv(X).
@@ -814,7 +925,38 @@ func r7(c *core.Ctx, p *Parser) {
 	}
 	positive := func(ft cfgq.Fact) bool {
 		o, val := BoolFact(info, ft)
-		return o != nil && val
+		if o != nil {
+			return val
+		}
+		// the verdict tested where it is computed: `if filter.FilterCommands(sCmd) {`
+		if call, ok := ast.Unparen(ft.Expr).(*ast.CallExpr); ok && ft.Val {
+			if f := core.CalleeFunc(info, call); f != nil && f.Pkg() != nil && strings.HasSuffix(f.Pkg().Path(), "redis-shake/filter") {
+				return true
+			}
+		}
+		return false
+	}
+	// a path that sets a verdict flag to true has consulted a positive verdict as well (the test of the
+	// flag may have been folded away by the normalisation: `flag = true; count; continue`)
+	setsFlag := func(n ast.Node) bool {
+		as, ok := n.(*ast.AssignStmt)
+		if !ok || len(as.Lhs) != len(as.Rhs) {
+			return false
+		}
+		for i, l := range as.Lhs {
+			id, ok := ast.Unparen(l).(*ast.Ident)
+			if !ok {
+				continue
+			}
+			v, ok := core.ObjOf(info, id).(*types.Var)
+			if !ok || v.IsField() || !types.Identical(v.Type().Underlying(), types.Typ[types.Bool]) {
+				continue
+			}
+			if tv, ok := info.Types[as.Rhs[i]]; ok && tv.Value != nil && tv.Value.String() == "true" {
+				return true
+			}
+		}
+		return false
 	}
 	unknown := func(ft cfgq.Fact) bool { // a test the rule cannot interpret as a plain negative verdict
 		o, val := BoolFact(info, ft)
@@ -921,13 +1063,20 @@ func r7(c *core.Ctx, p *Parser) {
 		wf := p.G.Path(cfgq.Query{From: pt, After: true, Avoid: p.IsDecode, Target: p.IsSend})
 		c.Check(rule, fmt.Sprintf("filtered-means-dropped#%d", k), tn.Pos(), wf == nil,
 			"a command counted as filtered must not be enqueued afterwards: on this path a command rejected by the db/command/key filter is still applied on the target", wf...)
-		w := p.G.Path(cfgq.Query{From: p.DecodePt, After: true, AvoidEdge: p.Fl.Edge(positive), Target: tgt, Avoid: p.IsDecode})
+		w := p.G.Path(cfgq.Query{From: p.DecodePt, After: true, AvoidEdge: p.Fl.Edge(positive), Target: tgt, Avoid: cfgq.Or(p.IsDecode, setsFlag)})
 		if w == nil {
 			c.Okf(rule, key, tn.Pos(), "the drop site is reachable only through a positive filter verdict")
 			continue
 		}
-		w2 := p.G.Path(cfgq.Query{From: p.DecodePt, After: true, AvoidEdge: p.Fl.Edge(unknown), Target: tgt, Avoid: p.IsDecode})
-		if w2 != nil {
+		w2 := p.G.Path(cfgq.Query{From: p.DecodePt, After: true, AvoidEdge: p.Fl.Edge(unknown), Target: tgt, Avoid: cfgq.Or(p.IsDecode, setsFlag)})
+		direct := false
+		for _, call := range cfgq.ExecCalls(tn) {
+			direct = direct || isFilterCount(info, call)
+		}
+		if w2 != nil && !direct {
+			// the counter sits inside a helper this statement calls: whether it runs is decided by the helper's own conditions
+			c.Undecidedf(rule, key, tn.Pos(), "the filter counter is reached through a helper called here; the conditions under which the helper counts are not visible on this view")
+		} else if w2 != nil {
 			c.Check(rule, key, tn.Pos(), false, "a command is dropped and counted as filtered on a path on which every filter verdict is negative (or none was consulted): commands that survive the filters are not forwarded", w2...)
 		} else {
 			c.Undecidedf(rule, key, tn.Pos(), "the drop site is reached through a condition whose polarity the rule cannot interpret")
@@ -1207,7 +1356,13 @@ func VerdictHonoured(c *core.Ctx, p *Parser, rule string) {
 				return nil
 			}
 			// (a) the value the flag has at the start of the iteration
-			w := unguarded(cfgq.Point{B: start, I: 0}, false, isWrite)
+			// (a variable declared inside the loop body is re-created in every iteration: it can only be
+			// true after a write of this iteration, which (b) covers -- also when its declaration sits in
+			// a nested block that the path to the enqueue does not enter)
+			var w []string
+			if !(p.Loop.Body.Pos() <= v.Pos() && v.Pos() < p.Loop.Body.End()) {
+				w = unguarded(cfgq.Point{B: start, I: 0}, false, isWrite)
+			}
 			// (b) every write that may leave it true
 			if w == nil {
 				for _, wp := range g.Points(func(n ast.Node) bool { return inLoop(n) && writeKind(n) == 2 }) {
